@@ -7,6 +7,8 @@
 -/
 import CB.Props.C02
 import CB.Lemmas.GenBitsDiv
+import CB.Lemmas.GenDivLimbLoops
+import CB.Lemmas.GenDivLimbVartime
 namespace CB.P02G
 open CB CB.Div
 
@@ -114,5 +116,179 @@ example : (Gen.DivLimb.reciprocal (1#64 <<< 63)).toNat = 2 ^ 64 - 1 ∧ Gen.DivL
 example : Gen.DivLimb.div2by1 5#64 7#64 (Gen.DivLimb.Reciprocal.new 11#64) = (7#64, (3#64 <<< 60) + 7#64) := by
   decide +kernel
 example : Gen.DivLimb.short_div 0x7fd00#32 19#32 300#32 9#32 = 1745#32 := by decide +kernel
+
+/-! ## T02.G2 — the SOURCE of division by a LIMB (translator round 4, G17): the count-down `div2by1` loops
+`div_rem_limb_with_reciprocal`, `rem_limb_with_reciprocal`, `rem_limb_with_reciprocal_wide`, `mul_rem` of src/uint/div_limb.rs
+and the wrappers `Uint::{div_rem_limb_with_reciprocal, div_rem_limb, rem_limb_with_reciprocal, rem_limb}` of src/uint/div.rs,
+regenerated on every run (tools/translate.py → CB/Gen/DivLimbLoops.lean; rounds read in CB/Lemmas/GenBitsDivLimbLoops.lean,
+inductions over the limb count in CB/Lemmas/GenDivLimbLoops.lean).  `GenShifts.nats l` is `l.map BitVec.toNat`; a
+`Uint<L>` is the list `u` of its limbs with `L = u.length`. -/
+
+/-- the hand-written model of division by a limb (what T02.3 `divRemLimb_exact` and the wide remainder `remLimbWide_spec`
+    are proved about) IS the translated source, for EVERY limb count, every input and every reciprocal whose `shift` is below
+    64 (`Reciprocal::new` of a non-zero limb: `GenDivLimbLoops.new_shift_lt`) -/
+theorem div_limb_loops_model_is_translated_source :
+    (∀ (u : List (BitVec 64)) (rc : Gen.DivLimb.Reciprocal), rc.shift.toNat < 64 →
+      divRemLimbWithReciprocal (GenShifts.nats u) (GenBits.rcNat rc) =
+        (GenShifts.nats (Gen.DivLimbLoops.div_rem_limb_with_reciprocal u.length u rc).1,
+         (Gen.DivLimbLoops.div_rem_limb_with_reciprocal u.length u rc).2.toNat)) ∧
+    (∀ (u : List (BitVec 64)) (rc : Gen.DivLimb.Reciprocal), rc.shift.toNat < 64 →
+      remLimbWithReciprocal (GenShifts.nats u) (GenBits.rcNat rc) =
+        (Gen.DivLimbLoops.rem_limb_with_reciprocal u.length u rc).toNat) ∧
+    (∀ (lo hi : List (BitVec 64)) (rc : Gen.DivLimb.Reciprocal), rc.shift.toNat < 64 → hi.length = lo.length →
+      remLimbWithReciprocalWide (GenShifts.nats lo) (GenShifts.nats hi) (GenBits.rcNat rc) =
+        (Gen.DivLimbLoops.rem_limb_with_reciprocal_wide lo.length (lo, hi) rc).toNat) ∧
+    (∀ (u : List (BitVec 64)) (d : BitVec 64), d ≠ 0#64 →
+      divRemLimb (GenShifts.nats u) d.toNat =
+        (GenShifts.nats (Gen.DivLimbLoops.Uint.div_rem_limb u.length u d).1,
+         (Gen.DivLimbLoops.Uint.div_rem_limb u.length u d).2.toNat)) ∧
+    (∀ (u : List (BitVec 64)) (d : BitVec 64), d ≠ 0#64 →
+      remLimb (GenShifts.nats u) d.toNat = (Gen.DivLimbLoops.Uint.rem_limb u.length u d).toNat) ∧
+    (∀ (u : List (BitVec 64)) (rc : Gen.DivLimb.Reciprocal),
+      Gen.DivLimbLoops.Uint.div_rem_limb_with_reciprocal u.length u rc =
+        Gen.DivLimbLoops.div_rem_limb_with_reciprocal u.length u rc ∧
+      Gen.DivLimbLoops.Uint.rem_limb_with_reciprocal u.length u rc = Gen.DivLimbLoops.rem_limb_with_reciprocal u.length u rc) ∧
+    (∀ a b d : BitVec 64, d ≠ 0#64 →
+      remLimb [(mulhilo a.toNat b.toNat).2, (mulhilo a.toNat b.toNat).1] d.toNat =
+        (Gen.DivLimbLoops.MulRem.mul_rem a b d).toNat) :=
+  ⟨GenDivLimbLoops.divRemLimbWithReciprocal_bridge, GenDivLimbLoops.remLimbWithReciprocal_bridge,
+    GenDivLimbLoops.remLimbWide_bridge, GenDivLimbLoops.divRemLimb_bridge, GenDivLimbLoops.remLimb_bridge,
+    fun u rc => ⟨GenBits.uint_div_rem_limb_with_reciprocal_eq _ u rc, GenBits.uint_rem_limb_with_reciprocal_eq _ u rc⟩,
+    GenDivLimbLoops.mulRem_bridge⟩
+
+/-- `div_rem_limb_with_reciprocal` of the source with the source's own `Reciprocal::new(d)`: for EVERY limb count, every `u`
+    and every non-zero limb `d` the returned limbs are the limbs of `⌊u/d⌋`, the returned limb is `u mod d`; hence
+    `u = q·d + r` with `r < d` (`P02.divRemLimb_exact` carried to the translated source; its preconditions `0 < d < 2^64`
+    and well-formed limbs hold for every `BitVec` input) -/
+theorem src_div_rem_limb_exact (u : List (BitVec 64)) (d : BitVec 64) (hd : d ≠ 0#64) :
+    GenShifts.nats (Gen.DivLimbLoops.div_rem_limb_with_reciprocal u.length u (Gen.DivLimb.Reciprocal.new d)).1 =
+      toLimbs u.length (val (GenShifts.nats u) / d.toNat) ∧
+    (Gen.DivLimbLoops.div_rem_limb_with_reciprocal u.length u (Gen.DivLimb.Reciprocal.new d)).2.toNat =
+      val (GenShifts.nats u) % d.toNat ∧
+    val (GenShifts.nats u) =
+      val (GenShifts.nats (Gen.DivLimbLoops.div_rem_limb_with_reciprocal u.length u (Gen.DivLimb.Reciprocal.new d)).1) * d.toNat +
+        (Gen.DivLimbLoops.div_rem_limb_with_reciprocal u.length u (Gen.DivLimb.Reciprocal.new d)).2.toNat ∧
+    (Gen.DivLimbLoops.div_rem_limb_with_reciprocal u.length u (Gen.DivLimb.Reciprocal.new d)).2.toNat < d.toNat := by
+  have hd0 := GenDivLimbLoops.toNat_pos_of_ne d hd
+  have ⟨h1, h2, _⟩ := P02.divRemLimb_exact hd0 (toNat_lt_B d) (GenShifts.nats_WF u)
+  have hb := GenDivLimbLoops.divRemLimbWithReciprocal_bridge u _ (GenDivLimbLoops.new_shift_lt d hd)
+  rw [← GenBits.new_bridge] at hb
+  have e1 : (divRemLimb (GenShifts.nats u) d.toNat).1 = _ := congrArg Prod.fst hb
+  have e2 : (divRemLimb (GenShifts.nats u) d.toNat).2 = _ := congrArg Prod.snd hb
+  simp only [] at e1 e2
+  rw [GenShifts.nats_length] at h1
+  rw [← e1, ← e2, h1, h2]
+  have hq : val (GenShifts.nats u) / d.toNat < B ^ u.length := by
+    have := val_lt (GenShifts.nats_WF u)
+    rw [GenShifts.nats_length] at this
+    exact Nat.lt_of_le_of_lt (Nat.div_le_self _ _) this
+  refine ⟨rfl, rfl, ?_, Nat.mod_lt _ hd0⟩
+  rw [val_toLimbs, Nat.mod_eq_of_lt hq]
+  exact (Nat.div_add_mod' _ _).symm
+
+/-- the same for the public wrapper `Uint::div_rem_limb(rhs)` of src/uint/div.rs -/
+theorem src_uint_div_rem_limb_exact (u : List (BitVec 64)) (d : BitVec 64) (hd : d ≠ 0#64) :
+    GenShifts.nats (Gen.DivLimbLoops.Uint.div_rem_limb u.length u d).1 = toLimbs u.length (val (GenShifts.nats u) / d.toNat) ∧
+    (Gen.DivLimbLoops.Uint.div_rem_limb u.length u d).2.toNat = val (GenShifts.nats u) % d.toNat := by
+  rw [GenBits.uint_div_rem_limb_eq]
+  exact ⟨(src_div_rem_limb_exact u d hd).1, (src_div_rem_limb_exact u d hd).2.1⟩
+
+/-- `rem_limb_with_reciprocal` (and the wrapper `Uint::rem_limb`) of the source: `u mod d` for every limb count, every `u`,
+    every non-zero limb `d` -/
+theorem src_rem_limb_exact (u : List (BitVec 64)) (d : BitVec 64) (hd : d ≠ 0#64) :
+    (Gen.DivLimbLoops.rem_limb_with_reciprocal u.length u (Gen.DivLimb.Reciprocal.new d)).toNat =
+      val (GenShifts.nats u) % d.toNat ∧
+    (Gen.DivLimbLoops.Uint.rem_limb u.length u d).toNat = val (GenShifts.nats u) % d.toNat := by
+  have hd0 := GenDivLimbLoops.toNat_pos_of_ne d hd
+  have ⟨_, _, h3⟩ := P02.divRemLimb_exact hd0 (toNat_lt_B d) (GenShifts.nats_WF u)
+  have hb := GenDivLimbLoops.remLimb_bridge u d hd
+  rw [h3] at hb
+  refine ⟨?_, hb.symm⟩
+  rw [← GenBits.uint_rem_limb_eq]; exact hb.symm
+
+/-- `rem_limb_with_reciprocal_wide((lo, hi), Reciprocal::new(d))` of the source: `(lo + 2^(64·L)·hi) mod d` for every limb
+    count `L ≥ 1` (both halves of `L` limbs) and every non-zero limb `d` (`remLimbWide_spec` carried to the translated source) -/
+theorem src_rem_limb_wide_exact (lo hi : List (BitVec 64)) (d : BitVec 64) (hd : d ≠ 0#64)
+    (hlen : hi.length = lo.length) (hne : hi ≠ []) :
+    (Gen.DivLimbLoops.rem_limb_with_reciprocal_wide lo.length (lo, hi) (Gen.DivLimb.Reciprocal.new d)).toNat =
+      (val (GenShifts.nats lo) + B ^ lo.length * val (GenShifts.nats hi)) % d.toNat := by
+  have hd0 := GenDivLimbLoops.toNat_pos_of_ne d hd
+  have ⟨ok, e1, e2⟩ := Reciprocal_new_ok hrecip hd0 (toNat_lt_B d)
+  have ⟨l1, _, _⟩ := leadingZeros_spec hd0 (toNat_lt_B d)
+  have hs := remLimbWide_spec ok (d := d.toNat) (by rw [e2]; exact l1) (by rw [e1, e2]) hd0
+    (GenShifts.nats_WF lo) (GenShifts.nats_WF hi) (by simp [hlen]) (by simpa using hne)
+  rw [GenShifts.nats_length] at hs
+  rw [← hs, GenBits.new_bridge]
+  exact (GenDivLimbLoops.remLimbWide_bridge lo hi _ (GenDivLimbLoops.new_shift_lt d hd) hlen).symm
+
+/-- `mul_rem(a, b, d)` of the source is `(a·b) mod d` for all words `a`, `b` and every non-zero `d` -/
+theorem src_mul_rem_exact (a b d : BitVec 64) (hd : d ≠ 0#64) :
+    (Gen.DivLimbLoops.MulRem.mul_rem a b d).toNat = (a.toNat * b.toNat) % d.toNat := by
+  have hd0 := GenDivLimbLoops.toNat_pos_of_ne d hd
+  have hab : a.toNat * b.toNat < B * B := Nat.mul_lt_mul'' (toNat_lt_B a) (toNat_lt_B b)
+  have hB : 0 < B := by decide
+  have hw : WF [(mulhilo a.toNat b.toNat).2, (mulhilo a.toNat b.toNat).1] := by
+    refine WF_cons.mpr ⟨Nat.mod_lt _ hB, WF_cons.mpr ⟨?_, WF_nil⟩⟩
+    exact Nat.div_lt_of_lt_mul hab
+  have ⟨_, _, h3⟩ := P02.divRemLimb_exact hd0 (toNat_lt_B d) hw
+  rw [← GenDivLimbLoops.mulRem_bridge a b d hd, h3]
+  congr 1
+  show (a.toNat * b.toNat) % B + B * ((a.toNat * b.toNat) / B + B * 0) = _
+  rw [Nat.mul_zero, Nat.add_zero, Nat.add_comm]
+  exact Nat.div_add_mod _ _
+
+/-! non-vacuity: the translated loops compute (three limbs, shift 60; the wide form; `mul_rem`) -/
+example : Gen.DivLimbLoops.div_rem_limb_with_reciprocal 3 [5#64, 7#64, 1#64] (Gen.DivLimb.Reciprocal.new 11#64) =
+    ([0x1745d1745d1745d1#64, 0x1745d1745d1745d2#64, 0#64], 10#64) := by decide +kernel
+example : Gen.DivLimbLoops.Uint.rem_limb 3 [5#64, 7#64, 1#64] 11#64 = 10#64 := by decide +kernel
+example : Gen.DivLimbLoops.rem_limb_with_reciprocal_wide 1 ([5#64], [7#64]) (Gen.DivLimb.Reciprocal.new 11#64) = 7#64 := by
+  decide +kernel
+example : Gen.DivLimbLoops.MulRem.mul_rem (~~~0#64) (~~~0#64) 1000003#64 = 301656#64 := by decide +kernel
+
+/-! ## T02.G3 — the private sub-limb shifts of `div_rem_vartime`: `Uint::shl_limb_vartime`, `Uint::shr_limb_vartime`
+(src/uint/div.rs; CB/Gen/DivLimbLoops.lean, namespace `CB.Gen.DivLimbLoops.Vartime`; bridges in CB/Lemmas/GenDivLimbVartime.lean) -/
+
+/-- the model's `shlLimbVartime` / `shrLimbVartime` (on which the normalisation and un-normalisation steps of
+    `div_rem_vartime` / `rem_wide_vartime` are proved) ARE the translated source, for every limb count, every
+    `1 ≤ limbs_num ≤ LIMBS` (for `limbs_num = 0` the source panics: `limbs_num - 1`) and every shift below 64 -/
+theorem limb_vartime_shifts_model_is_translated_source :
+    (∀ (a : List (BitVec 64)) (s : BitVec 32) (k : Nat), s.toNat < 64 → 1 ≤ k → k ≤ a.length →
+      shlLimbVartime (GenShifts.nats a) s.toNat k =
+        (GenShifts.nats (Gen.DivLimbLoops.Vartime.shl_limb_vartime a.length a s k).1,
+         (Gen.DivLimbLoops.Vartime.shl_limb_vartime a.length a s k).2.toNat)) ∧
+    (∀ (a : List (BitVec 64)) (s : BitVec 32) (k : Nat), s.toNat < 64 → 1 ≤ k → k ≤ a.length →
+      shrLimbVartime (GenShifts.nats a) s.toNat k =
+        GenShifts.nats (Gen.DivLimbLoops.Vartime.shr_limb_vartime a.length a s k)) :=
+  ⟨GenDivLimbVartime.shlLimbVartime_bridge, GenDivLimbVartime.shrLimbVartime_bridge⟩
+
+/-- `shl_limb_vartime(shift, LIMBS)` of the source over all limbs: `result + 2^(64·L)·carry = a·2^shift`, `carry < 2^shift` -/
+theorem src_shl_limb_vartime_full (a : List (BitVec 64)) (s : BitVec 32) (hs : s.toNat < 64) (hne : a ≠ []) :
+    val (GenShifts.nats (Gen.DivLimbLoops.Vartime.shl_limb_vartime a.length a s a.length).1) +
+        B ^ a.length * (Gen.DivLimbLoops.Vartime.shl_limb_vartime a.length a s a.length).2.toNat =
+      val (GenShifts.nats a) * 2 ^ s.toNat ∧
+    (Gen.DivLimbLoops.Vartime.shl_limb_vartime a.length a s a.length).2.toNat < 2 ^ s.toNat := by
+  have hpos : 1 ≤ a.length := by
+    cases a with
+    | nil => exact absurd rfl hne
+    | cons x xs => simp
+  have hb := GenDivLimbVartime.shlLimbVartime_bridge a s a.length hs hpos (Nat.le_refl _)
+  have ⟨h1, _, _, h4⟩ := shlLimbVartime_full hs (GenShifts.nats_WF a) (a := GenShifts.nats a) (by simpa using hne)
+  rw [GenShifts.nats_length, hb] at h1 h4
+  exact ⟨h1, h4⟩
+
+/-- `shr_limb_vartime(shift, limbs_num)` of the source on a value that fits its low `limbs_num` limbs: `⌊a / 2^shift⌋` -/
+theorem src_shr_limb_vartime_low (a : List (BitVec 64)) (s : BitVec 32) (k : Nat) (hs : s.toNat < 64) (hk1 : 1 ≤ k)
+    (hk : k ≤ a.length) (hz : val ((GenShifts.nats a).drop k) = 0) :
+    val (GenShifts.nats (Gen.DivLimbLoops.Vartime.shr_limb_vartime a.length a s k)) = val (GenShifts.nats a) / 2 ^ s.toNat := by
+  have hb := GenDivLimbVartime.shrLimbVartime_bridge a s k hs hk1 hk
+  have ⟨h1, _, _⟩ := shrLimbVartime_low hs (GenShifts.nats_WF a) (a := GenShifts.nats a) (m := k)
+    (by rw [GenShifts.nats_length]; exact hk) hz
+  rw [hb] at h1
+  exact h1
+
+example : Gen.DivLimbLoops.Vartime.shl_limb_vartime 3 [~~~0#64, 1#64, 0#64] 4#32 2 = ([~~~0#64 <<< 4, 31#64, 0#64], 0#64) := by
+  decide +kernel
+example : Gen.DivLimbLoops.Vartime.shr_limb_vartime 3 [5#64, 3#64, 0#64] 1#32 2 = ([(1#64 <<< 63) + 2#64, 1#64, 0#64]) := by
+  decide +kernel
 
 end CB.P02G
